@@ -112,7 +112,7 @@ def main():
     if "--also" in args:
         i = args.index("--also"); also = args[i + 1].split(","); del args[i:i + 2]
     for pid in args:
-        for k in ((1, 2) if ROUND > 1 else range(1, 9)):
+        for k in ((1, 2) if ROUND > 1 else range(1, 13)):
             r = evaluate(pid, k, tier, sorted(set(also + ALSO.get("%s-%d" % (pid, seed_index(k)), []))))
             if r is None:
                 continue
